@@ -26,6 +26,7 @@ def run(cx, chk):
     chk.rule("C02.R2", "index key = own key: map.insert(KeyRef{p}, n) has p pointing at n.key")
     chk.rule("C02.R3", "swap on hit: Update-returning paths swap the caller's value with exactly one node's value exactly once; hits return Update")
     chk.rule("C02.R4", "lookup agreement: contains/peek/peek_mut/get/get_mut consult the same lists")
+    chk.rule("C02.R6", "a key is inserted into a list only after it was looked up unsuccessfully in / removed from every other retained list (one copy per key)")
     chk.rule("C02.R5", "remove returns the hit node's value, moved out exactly once; None on a miss")
     ntrun.report_findings(cx, chk, ("C02.",))
     for cfg, F in cx.cfgs():
@@ -35,6 +36,22 @@ def run(cx, chk):
         for short, adt in api.CACHES.items():
             r4(cx, chk, cfg, F, short, adt)
             r5(cx, chk, cfg, F, short, adt)
+        # R6: one list per key (shared with C01.R4): a second copy of a key survives `remove` and keeps answering lookups
+        from . import c01
+
+        class Relabel:
+            def ob(self_, rule, key, how="ok", sample=None):
+                chk.ob("C02.R6", key, how, sample)
+
+            def violation(self_, rule, key, msg, *a, **k):
+                chk.violation("C02.R6", key, msg + " - a removed key would still be reported resident", *a, **k)
+
+            def floor(self_, rule, name, n, floor):
+                chk.floor("C02.R6", name, n, floor)
+
+            def undecide(self_, rule, key, why):
+                chk.undecide("C02.R6", key, why)
+        c01.r4(cx, Relabel(), cfg, F)
 
 
 def ret_variant(rv):
